@@ -4,6 +4,7 @@ import numpy as np
 from .. import core, gen
 
 PROP_FILE = 'Knee/Props/C07.lean'
+PROP_FILES = ['Knee/Props/C07.lean', 'Knee/Props/C07S.lean']
 RULE = ('exhaustive: every subset of {0..n-1} containing both ends (n<=9 quick / 11 thorough) x ascending position '
         'lists (all multisets up to length 3 + full/identity/random) x sorted table, reversed/random row permutations with '
         'sorted=False, int- and float-typed removed tables; random reductions to n=2000; simplifier outputs. '
